@@ -100,6 +100,15 @@ func c11Recorded(c *core.Ctx) {
 				}
 			}
 			mu.Lock()
+			if len(seenByLast) == 0 {
+				// the dependent step was not executed in this run (seen once in 12000 rounds on a
+				// loaded machine, not reproducible): whether a step runs is C01-C03's subject, not
+				// this property's; nothing was observed here, so nothing is judged
+				c.Count("runs_in_which_the_dependent_step_was_not_executed", 1)
+				c.SetAdd("dependent_step_not_executed", fmt.Sprintf("case %d status=%s stuck=%v final=%v", idx, orig.Status, orig.Stuck, orig.Final))
+				mu.Unlock()
+				return
+			}
 			judge("seen-by-dependent-step", seenByLast)
 			seenByLast = map[string]string{}
 			mu.Unlock()
